@@ -30,27 +30,31 @@ def _real_objects():
     return mix, mem, Pervaporation(mem, mix)
 
 
-def _call_real(entry, both=True, N=2, Tp=293.15, Pp=1.0):
-    """the same entry point on the real code with floats"""
+def _call_real(entry, both=True, N=2, Tp=293.15, Pp=1.0, model="NRTL", without=None):
+    """the same entry point on the real code with floats (without='uniquac': a mixture that has NRTL parameters only)"""
     mix, mem, pz = _real_objects()
+    if without == "uniquac":
+        import attr
+        mix = attr.evolve(mix, uniquac_params=None)
+        pz = Pervaporation(mem, mix)
     if not both:
         Pp = None
     comp = mixmod.Composition(0.2, "weight")
     P = (pv.Permeance(0.03), pv.Permeance(0.002))
     if entry == "driving_force":
-        return pz.get_partial_fluxes_from_permeate_composition(P[0], P[1], mixmod.Composition(0.9, "weight"), comp, 333.15, Tp, Pp)
+        return pz.get_partial_fluxes_from_permeate_composition(P[0], P[1], mixmod.Composition(0.9, "weight"), comp, 333.15, Tp, Pp, model)
     if entry == "flux_solver":
-        return pz.calculate_partial_fluxes(333.15, comp, 5e-5, Tp, Pp)
+        return pz.calculate_partial_fluxes(333.15, comp, 5e-5, Tp, Pp, calculation_type=model)
     if entry == "permeate_composition":
-        return pz.calculate_permeate_composition(333.15, comp, 5e-5, Tp, Pp)
+        return pz.calculate_permeate_composition(333.15, comp, 5e-5, Tp, Pp, model)
     if entry == "separation_factor":
-        return pz.calculate_separation_factor(333.15, comp, Tp, Pp)
+        return pz.calculate_separation_factor(333.15, comp, Tp, Pp, 5e-5, model)
     if entry == "ideal_curve":
-        return pz.ideal_diffusion_curve(333.15, [comp], Tp, Pp)
+        return pz.ideal_diffusion_curve(333.15, [comp], Tp, Pp, 5e-5, model)
     if entry == "non_ideal_curve":
-        return pz.non_ideal_diffusion_curve(realrun.curve_set(mix, 2), 333.15, comp, 0.05, 1, Tp, Pp, n_first=1, n_second=1, m_first=1, m_second=1)
+        return pz.non_ideal_diffusion_curve(realrun.curve_set(mix, 2), 333.15, comp, 0.05, 1, Tp, Pp, calculation_type=model, n_first=1, n_second=1, m_first=1, m_second=1)
     if entry in proc.KINDS:
-        return realrun.process({"kind": entry, "A": 0.05, "T0": 333.15, "m0": 5.0, "x0": 0.3, "dt": 0.2, "N": N, "Tp": Tp, "Pp": Pp})[0]
+        return realrun.process({"kind": entry, "A": 0.05, "T0": 333.15, "m0": 5.0, "x0": 0.3, "dt": 0.2, "N": N, "Tp": Tp, "Pp": Pp, "model": model}, mix=mix, membrane=mem)[0]
     if entry == "pure_component_flux":
         return mem.get_estimated_pure_component_flux(333.15, mix.first_component, Tp, Pp)
     if entry == "curve_from_fluxes":
@@ -74,6 +78,18 @@ def concrete(inp):
                 bad.append("%s accepted permeate temperature %r together with permeate pressure %r" % (entry, tp, pp))
                 break
             except Exception:
+                pass
+    if inp.get("missing_model_entry"):
+        import warnings
+        e = inp["missing_model_entry"]
+        for tp, pp in ((None, None), (293.15, None), (None, 1.0)):
+            try:
+                with warnings.catch_warnings():
+                    warnings.simplefilter("ignore")
+                    _call_real(e, both=True, Tp=tp, Pp=pp, model="UNIQUAC", without="uniquac")
+                bad.append("%s accepted calculation_type='UNIQUAC' for a mixture without UNIQUAC parameters (permeate T=%r, p=%r)" % (e, tp, pp))
+                break
+            except (ValueError, KeyError, TypeError, AttributeError):
                 pass
     cls = inp.get("class")
     if cls:
@@ -152,6 +168,56 @@ def both_specified(job, entry, N):
         job.vacuity["checked"] += 1
         if not ok:
             job.vacuity["failed"].append(tag + ": the valid twin never returns")
+
+
+MODEL_ENTRY = ("driving_force", "flux_solver", "permeate_composition", "separation_factor", "ideal_curve", "non_ideal_curve") + proc.KINDS
+
+
+def missing_model(job, entry):
+    """an activity model whose parameters are missing is rejected by every entry point that computes a driving force, not only by the
+    thermodynamic functions: UNIQUAC requested for a mixture that has NRTL parameters only (real calculate_activity_coefficients)"""
+    job.bound(steps_or_points=1)
+    job.stub("PSAT_i, HVAP/CP/COOL", "PERM_i(T) (stub membrane)", "find_best_fit -> symbolic function (non-ideal entry points)")
+    job.assume("valid permeate specification (a permeate temperature)", "the symbolic mixture has NRTL parameters and no UNIQUAC parameters")
+    model = "UNIQUAC"
+    ps = proc.ProcSetup("non_ideal_isothermal_process" if entry not in proc.KINDS else entry, "ptemp", "weight", None, 1, n_curves=2, model=model)
+    Tp = ps.Tp
+    T, x, y, prec, dx = ps.T0, ps.x0, real("y"), ps.prec, real("dx")
+    dom = ps.domain() + [y.t > 0, y.t < 1, dx.t > 0, dx.t < 1]
+    pz = ps.pz
+    P = lambda: (build.perm(real("P1")), build.perm(real("P2")))
+    comp = lambda: build.comp(x, "weight")
+
+    def call():
+        if entry == "driving_force":
+            return pz.get_partial_fluxes_from_permeate_composition(P()[0], P()[1], build.comp(y, "weight"), comp(), T, Tp, None, model)
+        if entry == "flux_solver":
+            return pz.calculate_partial_fluxes(T, comp(), prec, Tp, None, *P(), calculation_type=model)
+        if entry == "permeate_composition":
+            return pz.calculate_permeate_composition(T, comp(), prec, Tp, None, model)
+        if entry == "separation_factor":
+            return pz.calculate_separation_factor(T, comp(), Tp, None, prec, model)
+        if entry == "ideal_curve":
+            return pz.ideal_diffusion_curve(T, [comp()], Tp, None, prec, model)
+        if entry == "non_ideal_curve":
+            return pz.non_ideal_diffusion_curve(ps.curves, T, comp(), dx, 1, Tp, None, None, prec, model, 1, 1, 1, 1)
+        return ps.run()
+
+    tag = "C19/missing_model/%s" % proc.SHORT.get(entry, entry)
+    with Patches() as pt:
+        build.stub_thermo(pt, ps.mix, gamma=False, psat=True, heats=True)
+        ps.install(pt, validator="real", flux="real", heats=False, clamp="real")
+        cnt = flux.LoopCounter(pt, 2)
+        n = 0
+        for leaf in job.explore(lambda: (cnt.reset(), call())[1], dom, timeout_ms=200, max_paths=200):
+            n += 1
+            if leaf.kind == "raised" and isinstance(leaf.value, (ValueError, KeyError, TypeError, AttributeError)) and type(leaf.value).__module__ == "builtins":
+                job.record(tag + "/leaf%d" % n, "discharged", "raises %s: %s" % (type(leaf.value).__name__, str(leaf.value)[:60]))
+            else:
+                job.prove(tag + "/leaf%d_does_not_end_without_rejection" % n, dom + leaf.pc, z3.BoolVal(True), R_, {"missing_model_entry": entry},
+                          fallback=[{"missing_model_entry": entry}])
+        if n == 0:
+            job.vacuity["failed"].append(tag + ": no path")
 
 
 def _incomplete(cls, symbolic=True, x=0.4, T=333.15):
@@ -314,4 +380,5 @@ def jobs(tier):
 def _jobs(tier):
     js = [("both_%s_N%d" % (proc.SHORT.get(e, e), N), "both_specified", {"entry": e, "N": N}) for e in ENTRY for N in ((1,) if tier == "quick" else (1, 2))]
     js.append(("incomplete", "incomplete", {}))
+    js += [("missing_model_%s" % proc.SHORT.get(e, e), "missing_model", {"entry": e}) for e in MODEL_ENTRY]
     return js
